@@ -178,6 +178,18 @@ def criterion(ctx, member: str, fi: FuncInfo):
     want = CRITERIA.get(member)
     if want is None:
         return
+    lossy = [
+        n for n in own_nodes(fi.node)
+        if isinstance(n, ast.Attribute) and n.attr in ("durations_matrix_array", "machines_matrix_array")
+    ]
+    if lossy:
+        chk.violation(
+            "R04.b", fi, lossy[0],
+            f"{member}: the criterion is computed from instance.{lossy[0].attr}, a float32 view: integer totals at or "
+            "above 2**24 round to the same value, so a job that is not the best one can be selected",
+            loc=fi.loc(lossy[0]),
+        )
+        return
     sel = _selection(fi)
     if sel is None:
         raise AnalysisError(f"{fi.qualname}: selection idiom not recognised")
@@ -362,6 +374,21 @@ def metadata(ctx):
                 k = m.targets[0].slice
                 if isinstance(k, ast.Constant):
                     writes[k.value] = m
+        sd = [
+            m for m in own_nodes(call.node)
+            if isinstance(m, ast.Call) and isinstance(m.func, ast.Attribute) and m.func.attr == "setdefault"
+            and ast.unparse(m.func.value).endswith("metadata") and m.args and isinstance(m.args[0], ast.Constant)
+            and m.args[0].value in ("elapsed_time", "solved_by")
+        ]
+        for m in sd:
+            chk.violation(
+                "R04.e", call, m,
+                f"`{m.args[0].value}` is recorded with setdefault(): a schedule that already carries the key "
+                "(a solver built on other solvers, a reused schedule) keeps the inner solver's value instead of this call's",
+                loc=call.loc(m),
+            )
+        if sd:
+            continue
         if not writes:
             # delegates (e.g. ORToolsSolver.__call__ -> solve which builds the metadata)
             _ortools_metadata(ctx, cls, call)
@@ -514,8 +541,48 @@ def registries(ctx):
     return rules
 
 
+def purity(ctx):
+    """R04.g - rules, scoring functions and scorer objects do not mutate the
+    dispatcher, the instance or any observer (they may rebind their own
+    attributes)."""
+    from ..dataflow import is_shared
+
+    chk, repo = ctx.chk, ctx.repo
+    mi = repo.modules.get("job_shop_lib.dispatching.rules._dispatching_rules_functions")
+    if mi is None:
+        raise AnalysisError("rules module vanished")
+    targets = [f for f in mi.functions.values()]
+    for c in mi.classes.values():
+        targets += [m for m in c.methods.values() if m.name == "__call__"]
+    targets += [f for f in repo.functions.values() if f.module is mi and f.parent is not None and not isinstance(f.node, ast.Lambda)]
+    n = 0
+    for fi in sorted(set(targets), key=lambda f: f.qualname):
+        n += 1
+        bad = False
+        for w in ctx.effects.closure_writes(fi, fi.cls, max_depth=3, stop=lambda t: t.name in ("create_or_get_observer", "__init__")):
+            obj = w.obj
+            # rebinding an attribute of the callable object itself is its own state
+            if isinstance(obj, ast.Name) and w.fi.cls is not None and w.fi.params and obj.id == w.fi.params[0] and w.fi.name == "__call__":
+                continue
+            shared = [o for o in w.origins if is_shared(o) and o[0] not in ("unknown", "global")]
+            if not shared:
+                continue
+            bad = True
+            chk.violation(
+                "R04.g", fi, w.event.node,
+                f"{fi.name} mutates shared state (`{w.event.data.get('text')}`): a view of dispatcher/observer data is "
+                "written in place, so later queries and the other rules see corrupted values",
+                loc=w.loc, path=[*w.via, w.fi.qualname],
+            )
+            break
+        if not bad:
+            chk.ok("R04.g", fi.qualname, fi.loc(), "no write to shared state")
+    chk.floor("R04.g", n, 10, "rule / scoring functions")
+
+
 def run(ctx):
     chk, repo = ctx.chk, ctx.repo
+    chk.rule("R04.g", "rules, scoring functions and scorers mutate nothing reachable from the dispatcher or an observer")
     for rid, txt in (
         ("R04.a", "every returned operation is an element of dispatcher.available_operations()"),
         ("R04.b", "direction and key of each documented rule match the criterion table"),
@@ -546,3 +613,4 @@ def run(ctx):
     tie_breaker(ctx)
     solver(ctx)
     metadata(ctx)
+    purity(ctx)
